@@ -92,7 +92,12 @@ Section Proofs.
   Proof. apply map_app. Qed.
 
   Lemma nodup_prefix (a b : list entry) : NoDup (keys (a ++ b)) -> NoDup (keys a).
-  Proof. rewrite keys_app. apply NoDup_app_remove_r. Qed.
+  Proof.
+    rewrite keys_app. generalize (keys b) as kb. intros kb.
+    induction (keys a) as [|x ka IH]; intros H; [constructor|].
+    cbn [app] in H. apply NoDup_cons_iff in H. destruct H as [H1 H2].
+    apply NoDup_cons; [|apply IH, H2]. intros HI. apply H1. apply in_or_app. left. exact HI.
+  Qed.
 
   (* ---------- lookup = find, remove_first = without (unique keys) ---------- *)
   Lemma lookup_find k (l : list entry) : lookup k l = find (has_key k) l.
@@ -140,7 +145,7 @@ Section Proofs.
   Lemma fit_drop_last b (l : list entry) e : b < total (l ++ [e]) -> fit b (l ++ [e]) = fit b l.
   Proof.
     revert b; induction l as [|x l IH]; intros b H.
-    - cbn [app fit]. rewrite total_cons in H. cbn [total fold_right] in H.
+    - cbn [app fit] in *. rewrite total_cons in H. cbn [total fold_right] in H.
       destruct (e_mem e <=? b) eqn:E; [lia|reflexivity].
     - cbn [app] in *. rewrite total_cons in H. cbn [fit].
       destruct (e_mem x <=? b) eqn:E; [|reflexivity]. rewrite IH by lia. reflexivity.
@@ -189,5 +194,400 @@ Section Proofs.
     assert (Hn : ~ In (e_key e) (keys l)).
     { intros HI. apply NoDup_remove_2 in H. apply H. rewrite app_nil_r. exact HI. }
     rewrite (without_notin _ _ Hn). rewrite without_cons, has_key_self. cbn. apply app_nil_r.
+  Qed.
+
+  (* ================= the model on well-formed states ================= *)
+  (* A well-formed map state is determined by its entry list, default TTL and limit: the
+     counter is the sum of the sizes and no assertion has fired. *)
+  Definition mk_of (l : list entry) (d : Z) (lim : N) : cmap := mkM l d lim (total l) StOk.
+
+  (* the concrete state representing a specification state *)
+  Definition conc (s : smap) : cmap := mk_of (s_items s) (s_dttl s) (s_limit s).
+
+  Definition GoodS (s : smap) : Prop :=
+    NoDup (keys (s_items s)) /\ total (s_items s) <= s_limit s /\ s_limit s <= U64MAX.
+
+  Lemma st_assert_true s : st_assert true s = s.
+  Proof. destruct s; reflexivity. Qed.
+
+  Lemma erase_ok l d lim k e :
+    NoDup (keys l) -> find (has_key k) l = Some e ->
+    clp_erase (mk_of l d lim) e = mk_of (without k l) d lim.
+  Proof.
+    intros Hn F. pose proof (find_key _ _ _ F) as Hk. pose proof (total_find _ _ _ Hn F) as Ht.
+    unfold clp_erase, mk_of. cbn [entries defTtl memLimit memUsed stat].
+    rewrite Hk, (remove_first_without _ _ Hn).
+    assert (Hle : (e_mem e <=? total l) = true) by lia. rewrite Hle, st_assert_true.
+    f_equal. unfold u64sub. rewrite Hle. lia.
+  Qed.
+
+  Lemma find_none_ok now l d lim k :
+    find (has_key k) l = None -> clp_find now (mk_of l d lim) k = (mk_of l d lim, None).
+  Proof. intros F. unfold clp_find. cbn [entries mk_of]. rewrite lookup_find, F. reflexivity. Qed.
+
+  Lemma find_stale_ok now l d lim k e :
+    NoDup (keys l) -> find (has_key k) l = Some e -> fresh now e = false ->
+    clp_find now (mk_of l d lim) k = (mk_of (without k l) d lim, None).
+  Proof.
+    intros Hn F Hf. unfold clp_find. cbn [entries mk_of]. rewrite lookup_find, F.
+    unfold fresh in Hf. unfold expired. assert (Hx : (e_expires e <? now)%Z = true) by lia. rewrite Hx.
+    fold (mk_of l d lim). rewrite (erase_ok _ _ _ _ _ Hn F). reflexivity.
+  Qed.
+
+  Lemma find_fresh_ok now l d lim k e :
+    NoDup (keys l) -> find (has_key k) l = Some e -> fresh now e = true ->
+    clp_find now (mk_of l d lim) k = (mk_of (e :: without k l) d lim, Some e).
+  Proof.
+    intros Hn F Hf. unfold clp_find. cbn [entries mk_of]. rewrite lookup_find, F.
+    unfold fresh in Hf. unfold expired. assert (Hx : (e_expires e <? now)%Z = false) by lia. rewrite Hx.
+    unfold set_entries, mk_of. cbn [entries defTtl memLimit memUsed stat].
+    rewrite (remove_first_without _ _ Hn), total_cons, <- (total_find _ _ _ Hn F). reflexivity.
+  Qed.
+
+  Lemma nodup_front k e (l : list entry) :
+    NoDup (keys l) -> e_key e = k -> NoDup (keys (e :: without k l)).
+  Proof.
+    intros Hn Hk. cbn [keys map]. apply NoDup_cons; [rewrite Hk; apply without_keys|apply nodup_without, Hn].
+  Qed.
+
+  Lemma del_ok now l d lim k :
+    NoDup (keys l) -> clp_del now (mk_of l d lim) k = mk_of (without k l) d lim.
+  Proof.
+    intros Hn. unfold clp_del. destruct (find (has_key k) l) as [e|] eqn:F.
+    - pose proof (find_key _ _ _ F) as Hk. destruct (fresh now e) eqn:Hf.
+      + rewrite (find_fresh_ok _ _ _ _ _ _ Hn F Hf).
+        assert (F2 : find (has_key k) (e :: without k l) = Some e).
+        { cbn [find]. rewrite <- Hk at 1. rewrite has_key_self. reflexivity. }
+        rewrite (erase_ok _ _ _ _ _ (nodup_front _ _ _ Hn Hk) F2).
+        rewrite without_cons. rewrite <- Hk at 1. rewrite has_key_self, without_idem. reflexivity.
+      + rewrite (find_stale_ok _ _ _ _ _ _ Hn F Hf). reflexivity.
+    - rewrite (find_none_ok _ _ _ _ _ F), (find_none_without _ _ F). reflexivity.
+  Qed.
+
+  (* the loop of trim() computes the longest fitting MRU prefix *)
+  Lemma trim_loop_ok now d lim want : want <= lim ->
+    forall fuel l, NoDup (keys l) -> total l <= lim -> (length l < fuel)%nat ->
+    trim_loop fuel now (mk_of l d lim) want = mk_of (fit (lim - want) l) d lim.
+  Proof.
+    intros Hw. induction fuel as [|f IH]; intros l Hn Ht Hl; [lia|].
+    cbn [trim_loop]. unfold freeMem. cbn [memLimit memUsed mk_of].
+    assert (Hs : u64sub lim (total l) = lim - total l).
+    { unfold u64sub. assert (Hle : (total l <=? lim) = true) by lia. rewrite Hle. reflexivity. }
+    rewrite Hs. destruct (lim - total l <? want) eqn:E.
+    - destruct l as [|x0 l0] using rev_ind.
+      + cbn [total fold_right] in E. lia.
+      + clear IHl0. change (entries (mk_of (l0 ++ [x0]) d lim)) with (l0 ++ [x0]).
+        rewrite last_entry_snoc. rewrite (del_ok _ _ _ _ _ Hn), (without_last _ _ Hn).
+        rewrite total_app in Ht. rewrite app_length in Hl. cbn [length] in Hl.
+        rewrite IH; [|apply nodup_prefix in Hn; exact Hn|lia|lia].
+        rewrite fit_drop_last; [reflexivity|]. rewrite total_app in *. lia.
+    - rewrite fit_all by lia. reflexivity.
+  Qed.
+
+  Lemma trim_ok now l d lim want :
+    NoDup (keys l) -> total l <= lim -> want <= lim ->
+    clp_trim now (mk_of l d lim) want = mk_of (fit (lim - want) l) d lim.
+  Proof.
+    intros Hn Ht Hw. unfold clp_trim. cbn [memLimit stat mk_of].
+    assert (Hle : (want <=? lim) = true) by lia. rewrite Hle, st_assert_true.
+    change (trim_loop (S (length l)) now (mk_of l d lim) want = mk_of (fit (lim - want) l) d lim).
+    apply trim_loop_ok; [exact Hw|exact Hn|exact Ht|lia].
+  Qed.
+
+  (* MemoryCountedFor(): the chain of checked additions is the checked sum *)
+  Lemma mem_counted_size_of k (v : V) : mem_counted vmem esz isz k v = size_of vmem esz isz k v.
+  Proof.
+    unfold mem_counted, size_of, inc_sum.
+    destruct (0 + lenN k <=? U64MAX) eqn:E1.
+    - destruct (0 + lenN k + esz <=? U64MAX) eqn:E2.
+      + destruct (0 + lenN k + esz + vmem v <=? U64MAX) eqn:E3.
+        * destruct (0 + lenN k + esz + vmem v + isz <=? U64MAX) eqn:E4;
+          destruct (lenN k + vmem v + (esz + isz) <=? U64MAX) eqn:E5; try lia; try reflexivity. f_equal. lia.
+        * destruct (lenN k + vmem v + (esz + isz) <=? U64MAX) eqn:E5; [lia|reflexivity].
+      + destruct (lenN k + vmem v + (esz + isz) <=? U64MAX) eqn:E5; [lia|reflexivity].
+    - destruct (lenN k + vmem v + (esz + isz) <=? U64MAX) eqn:E5; [lia|reflexivity].
+  Qed.
+
+  (* Entry::Entry(): the saturating sum is min(tmax, now + ttl), "never" for a negative clock *)
+  Lemma expires_at_deadline now ttl : (0 <= ttl)%Z -> expires_at tmax now ttl = deadline tmax now ttl.
+  Proof.
+    intros H. unfold expires_at, deadline.
+    destruct (now <? 0)%Z eqn:E1; [reflexivity|].
+    destruct (tmax <? now)%Z eqn:E2; [lia|].
+    destruct (ttl <? 0)%Z eqn:E3; [lia|].
+    destruct (tmax - now <? ttl)%Z eqn:E4; lia.
+  Qed.
+
+  (* ================= commutation: model (conc s) = conc (spec s) ================= *)
+  Lemma get_comm now s k : GoodS s ->
+    clp_get now (conc s) k = (conc (fst (spec_get now s k)), snd (spec_get now s k)).
+  Proof.
+    intros [Hn [Ht Hl]]. unfold clp_get, spec_get, conc.
+    destruct (find (has_key k) (s_items s)) as [e|] eqn:F.
+    - destruct (fresh now e) eqn:Hf.
+      + rewrite (find_fresh_ok _ _ _ _ _ _ Hn F Hf). reflexivity.
+      + rewrite (find_stale_ok _ _ _ _ _ _ Hn F Hf). reflexivity.
+    - rewrite (find_none_ok _ _ _ _ _ F). reflexivity.
+  Qed.
+
+  Lemma del_comm now s k : GoodS s -> clp_del now (conc s) k = conc (spec_del s k).
+  Proof. intros [Hn _]. unfold conc. rewrite (del_ok _ _ _ _ _ Hn). reflexivity. Qed.
+
+  Lemma add_comm now s k v ttl : GoodS s ->
+    clp_add vmem esz isz tmax now (conc s) k v ttl =
+    (conc (fst (spec_add vmem esz isz tmax now s k v ttl)), snd (spec_add vmem esz isz tmax now s k v ttl)).
+  Proof.
+    intros [Hn [Ht Hl]]. unfold clp_add, spec_add.
+    change (memLimit (conc s)) with (s_limit s).
+    destruct (s_limit s =? 0) eqn:E0; [reflexivity|].
+    change (conc s) with (mk_of (s_items s) (s_dttl s) (s_limit s)). rewrite (del_ok _ _ _ _ _ Hn).
+    rewrite mem_counted_size_of.
+    destruct (ttl <? 0)%Z eqn:Et.
+    - assert (Hz : (0 <=? ttl)%Z = false) by lia. rewrite Hz.
+      destruct (size_of vmem esz isz k v); reflexivity.
+    - assert (Hz : (0 <=? ttl)%Z = true) by lia. rewrite Hz.
+      destruct (size_of vmem esz isz k v) as [sz|] eqn:Es; [|reflexivity].
+      cbn [memLimit mk_of].
+      destruct ((s_limit s <? sz) || (sz =? 0)) eqn:Eb.
+      + assert (Hc : (0 <? sz) && (sz <=? s_limit s) = false) by lia. cbn [andb]. rewrite Hc. reflexivity.
+      + assert (Hc : (0 <? sz) && (sz <=? s_limit s) = true) by lia. cbn [andb]. rewrite Hc.
+        set (rest := without k (s_items s)).
+        assert (Hnr : NoDup (keys rest)) by (apply nodup_without, Hn).
+        assert (Htr : total rest <= s_limit s).
+        { destruct (find (has_key k) (s_items s)) as [e|] eqn:F.
+          - pose proof (total_find _ _ _ Hn F). subst rest. lia.
+          - subst rest. rewrite (find_none_without _ _ F). exact Ht. }
+        rewrite (trim_ok _ _ _ _ _ Hnr Htr) by lia.
+        cbn [entries defTtl memLimit memUsed stat mk_of fst snd].
+        pose proof (fit_total (s_limit s - sz) rest) as Hft.
+        assert (Hu : u64add (total (fit (s_limit s - sz) rest)) sz = sz + total (fit (s_limit s - sz) rest)).
+        { unfold u64add. destruct (total (fit (s_limit s - sz) rest) + sz <=? U64MAX) eqn:Eu; lia. }
+        rewrite Hu. assert (Hle : (sz <=? sz + total (fit (s_limit s - sz) rest)) = true) by lia.
+        rewrite Hle, st_assert_true. rewrite expires_at_deadline by lia. reflexivity.
+  Qed.
+
+  Lemma lim_comm now s n : GoodS s -> n <= U64MAX ->
+    clp_setMemLimit now (conc s) n = conc (spec_setLimit s n).
+  Proof.
+    intros [Hn [Ht Hl]] Hu. unfold clp_setMemLimit, spec_setLimit, conc. cbn [memUsed memLimit mk_of].
+    destruct (n <? total (s_items s)) eqn:E.
+    - fold (mk_of (s_items s) (s_dttl s) (s_limit s)).
+      assert (Hs : u64sub (s_limit s) n = s_limit s - n).
+      { unfold u64sub. assert (Hle : (n <=? s_limit s) = true) by lia. rewrite Hle. reflexivity. }
+      rewrite Hs, (trim_ok _ _ _ _ _ Hn Ht) by lia.
+      cbn [entries defTtl memLimit memUsed stat mk_of s_items s_limit s_dttl].
+      replace (s_limit s - (s_limit s - n)) with n by lia. reflexivity.
+    - cbn [entries defTtl memLimit memUsed stat s_items s_limit s_dttl].
+      rewrite fit_all by lia. reflexivity.
+  Qed.
+
+  Lemma new_comm now cap d b : cap <= U64MAX -> dttl_ok d ->
+    clp_new now cap d b = conc (spec_new cap d b).
+  Proof.
+    intros Hc Hd. unfold clp_new, spec_new, conc, mk_of, clp_setMemLimit. cbn [s_items s_limit s_dttl].
+    assert (Hn : (cap <? 0) = false) by lia.
+    destruct d as [d|]; cbn [dttl_ok] in Hd; cbn [memUsed]; rewrite Hn; cbn [entries defTtl memUsed stat].
+    - assert (Hz : (0 <=? d)%Z = true) by lia. rewrite Hz, st_assert_true. reflexivity.
+    - reflexivity.
+  Qed.
+
+  (* ================= the specification keeps its states well formed ================= *)
+  Lemma spec_new_good cap d b : cap <= U64MAX -> GoodS (spec_new cap d b).
+  Proof. intros H. unfold GoodS, spec_new. cbn. repeat split; [constructor|lia|exact H]. Qed.
+
+  Lemma total_without_le k (l : list entry) : total (without k l) <= total l.
+  Proof.
+    induction l as [|e l IH]; [cbn; lia|]. rewrite without_cons.
+    destruct (has_key k e); rewrite ?total_cons; lia.
+  Qed.
+
+  Lemma spec_get_good now s k : GoodS s -> GoodS (fst (spec_get now s k)).
+  Proof.
+    intros [Hn [Ht Hl]]. unfold spec_get. destruct (find (has_key k) (s_items s)) as [e|] eqn:F.
+    - pose proof (find_key _ _ _ F) as Hk. pose proof (total_find _ _ _ Hn F) as Htf.
+      destruct (fresh now e); unfold GoodS; cbn [fst s_items s_limit s_dttl].
+      + repeat split; [apply nodup_front; assumption|rewrite total_cons; lia|exact Hl].
+      + repeat split; [apply nodup_without, Hn|lia|exact Hl].
+    - repeat split; assumption.
+  Qed.
+
+  Lemma spec_del_good s k : GoodS s -> GoodS (spec_del s k).
+  Proof.
+    intros [Hn [Ht Hl]]. unfold GoodS, spec_del. cbn [s_items s_limit s_dttl].
+    pose proof (total_without_le k (s_items s)). repeat split; [apply nodup_without, Hn|lia|exact Hl].
+  Qed.
+
+  Lemma spec_add_good now s k v ttl : GoodS s -> GoodS (fst (spec_add vmem esz isz tmax now s k v ttl)).
+  Proof.
+    intros G. pose proof (spec_del_good s k G) as [Hn [Ht Hl]]. cbn [spec_del s_items s_limit] in Hn, Ht, Hl.
+    unfold spec_add. destruct (s_limit s =? 0); [exact G|].
+    destruct (size_of vmem esz isz k v) as [sz|].
+    - destruct ((0 <=? ttl)%Z && (0 <? sz) && (sz <=? s_limit s)) eqn:Ec.
+      + unfold GoodS. cbn [fst s_items s_limit s_dttl].
+        pose proof (fit_total (s_limit s - sz) (without k (s_items s))) as Hft.
+        repeat split; [|rewrite total_cons; cbn [e_mem]; lia|exact Hl].
+        cbn [keys map e_key]. apply NoDup_cons; [|apply nodup_fit, Hn].
+        intros HI. apply fit_keys_incl in HI. revert HI. apply without_keys.
+      + unfold GoodS. cbn [fst s_items s_limit s_dttl]. repeat split; assumption.
+    - unfold GoodS. cbn [fst s_items s_limit s_dttl]. repeat split; assumption.
+  Qed.
+
+  Lemma spec_setLimit_good s n : GoodS s -> n <= U64MAX -> GoodS (spec_setLimit s n).
+  Proof.
+    intros [Hn _] Hu. unfold GoodS, spec_setLimit. cbn [s_items s_limit s_dttl].
+    repeat split; [apply nodup_fit, Hn|apply fit_total|exact Hu].
+  Qed.
+
+  (* ================= one operation, then all histories ================= *)
+  Notation cstep := (clp_step vmem esz isz tmax).
+  Notation sstep := (spec_step vmem esz isz tmax).
+  Notation crun := (clp_run vmem esz isz tmax).
+  Notation srun := (spec_run vmem esz isz tmax).
+
+  Lemma step_comm now s (o : op) : GoodS s -> op_ok o ->
+    cstep (now, conc s) o =
+    ((fst (fst (sstep (now, s) o)), conc (snd (fst (sstep (now, s) o)))), snd (sstep (now, s) o)).
+  Proof.
+    intros G Ho. destruct o as [k|k v ttl|k v|k|n|t]; unfold clp_step, spec_step.
+    - rewrite (get_comm now s k G). destruct (spec_get now s k); reflexivity.
+    - rewrite (add_comm now s k v ttl G). destruct (spec_add vmem esz isz tmax now s k v ttl); reflexivity.
+    - change (defTtl (conc s)) with (s_dttl s).
+      rewrite (add_comm now s k v (s_dttl s) G). destruct (spec_add vmem esz isz tmax now s k v (s_dttl s)); reflexivity.
+    - rewrite (del_comm now s k G). reflexivity.
+    - cbn [op_ok] in Ho. rewrite (lim_comm now s n G Ho). reflexivity.
+    - reflexivity.
+  Qed.
+
+  Lemma step_good now s (o : op) : GoodS s -> op_ok o -> GoodS (snd (fst (sstep (now, s) o))).
+  Proof.
+    intros G Ho. destruct o as [k|k v ttl|k v|k|n|t]; unfold spec_step.
+    - pose proof (spec_get_good now s k G). destruct (spec_get now s k); exact H.
+    - pose proof (spec_add_good now s k v ttl G). destruct (spec_add vmem esz isz tmax now s k v ttl); exact H.
+    - pose proof (spec_add_good now s k v (s_dttl s) G).
+      destruct (spec_add vmem esz isz tmax now s k v (s_dttl s)); exact H.
+    - apply spec_del_good, G.
+    - apply spec_setLimit_good; [exact G|exact Ho].
+    - exact G.
+  Qed.
+
+  Lemma run_comm (ops : list op) : forall now s, GoodS s -> Forall op_ok ops ->
+    crun (now, conc s) ops =
+      (fst (srun (now, s) ops), (fst (snd (srun (now, s) ops)), conc (snd (snd (srun (now, s) ops)))))
+    /\ GoodS (snd (snd (srun (now, s) ops))).
+  Proof.
+    induction ops as [|o ops IH]; intros now s G Hf.
+    - cbn [clp_run spec_run fst snd]. split; [reflexivity|exact G].
+    - apply Forall_cons_iff in Hf. destruct Hf as [Ho Hf].
+      cbn [clp_run spec_run]. rewrite (step_comm now s o G Ho).
+      pose proof (step_good now s o G Ho) as G1.
+      destruct (sstep (now, s) o) as [[now1 s1] r]. cbn [fst snd] in *.
+      destruct (IH now1 s1 G1 Hf) as [IH1 IH2]. rewrite IH1.
+      destruct (srun (now1, s1) ops) as [outs [nowf sf]]. cbn [fst snd] in *.
+      split; [reflexivity|exact IH2].
+  Qed.
+
+  (* ---- the three results about histories that start from a constructor ---- *)
+  Theorem refines_spec t0 cap dttl b (ops : list op) :
+    cap <= U64MAX -> dttl_ok dttl -> Forall op_ok ops ->
+    fst (crun (t0, clp_new t0 cap dttl b) ops) = fst (srun (t0, spec_new cap dttl b) ops).
+  Proof.
+    intros Hc Hd Hf. rewrite (new_comm t0 cap dttl b Hc Hd).
+    destruct (run_comm ops t0 _ (spec_new_good cap dttl b Hc) Hf) as [H _]. rewrite H. reflexivity.
+  Qed.
+
+  Lemma reachable t0 cap dttl b (ops : list op) :
+    cap <= U64MAX -> dttl_ok dttl -> Forall op_ok ops ->
+    exists now s, snd (crun (t0, clp_new t0 cap dttl b) ops) = (now, conc s) /\ GoodS s.
+  Proof.
+    intros Hc Hd Hf. rewrite (new_comm t0 cap dttl b Hc Hd).
+    destruct (run_comm ops t0 _ (spec_new_good cap dttl b Hc) Hf) as [H G]. rewrite H. cbn [snd].
+    eexists. eexists. split; [reflexivity|exact G].
+  Qed.
+
+  Theorem invariants t0 cap dttl b (ops : list op) :
+    cap <= U64MAX -> dttl_ok dttl -> Forall op_ok ops ->
+    let m := snd (snd (crun (t0, clp_new t0 cap dttl b) ops)) in
+    memUsed m = total (entries m) /\ memUsed m <= memLimit m /\ memLimit m <= U64MAX /\
+    stat m = StOk /\ NoDup (map e_key (entries m)).
+  Proof.
+    intros Hc Hd Hf. destruct (reachable t0 cap dttl b ops Hc Hd Hf) as [now [s [H [Hn [Ht Hl]]]]].
+    cbv zeta. rewrite H. cbn [snd conc mk_of memUsed entries memLimit stat].
+    repeat split; [exact Ht|exact Hl|exact Hn].
+  Qed.
+
+  (* ---- purging ---- *)
+  Lemma others_front k (e : entry) l : e_key e = k -> without k (e :: l) = without k l.
+  Proof. intros H. rewrite without_cons. rewrite <- H at 1. rewrite has_key_self. reflexivity. Qed.
+
+  Lemma spec_add_purge now s k v ttl :
+    let r := spec_add vmem esz isz tmax now s k v ttl in
+    exists purged,
+      without k (s_items s) = without k (s_items (fst r)) ++ purged /\
+      match purged with
+      | [] => True
+      | x :: _ => exists sz, snd r = true /\ size_of vmem esz isz k v = Some sz /\
+                             s_limit (fst r) < sz + total (without k (s_items (fst r))) + e_mem x
+      end.
+  Proof.
+    cbv zeta. unfold spec_add. destruct (s_limit s =? 0) eqn:E0.
+    { exists []. cbn [fst]. rewrite app_nil_r. split; [reflexivity|exact I]. }
+    destruct (size_of vmem esz isz k v) as [sz|] eqn:Es.
+    2:{ exists []. cbn [fst s_items]. rewrite without_idem, app_nil_r. split; [reflexivity|exact I]. }
+    destruct ((0 <=? ttl)%Z && (0 <? sz) && (sz <=? s_limit s)) eqn:Ec.
+    2:{ exists []. cbn [fst s_items]. rewrite without_idem, app_nil_r. split; [reflexivity|exact I]. }
+    cbn [fst snd s_items s_limit].
+    set (rest := without k (s_items s)).
+    assert (Hk : without k (fit (s_limit s - sz) rest) = fit (s_limit s - sz) rest).
+    { apply without_notin. intros HI. apply fit_keys_incl in HI. revert HI. apply without_keys. }
+    rewrite others_front by reflexivity. rewrite Hk.
+    destruct (fit_prefix (s_limit s - sz) rest) as [r Hr]. exists r. split; [exact Hr|].
+    destruct r as [|x r']; [exact I|]. exists sz. split; [reflexivity|]. split; [reflexivity|].
+    pose proof (fit_maximal _ _ _ _ Hr). lia.
+  Qed.
+
+  Lemma spec_purge now s (o : op) :
+    let r := sstep (now, s) o in
+    exists purged,
+      others (op_key o) (s_items s) = others (op_key o) (s_items (snd (fst r))) ++ purged /\
+      purge_justified vmem esz isz o (snd r) (s_limit (snd (fst r)))
+                      (others (op_key o) (s_items (snd (fst r)))) purged.
+  Proof.
+    cbv zeta. destruct o as [k|k v ttl|k v|k|n|t]; unfold spec_step; cbn [op_key others].
+    - exists []. rewrite app_nil_r. split; [|exact I]. unfold spec_get.
+      destruct (find (has_key k) (s_items s)) as [e|] eqn:F.
+      + pose proof (find_key _ _ _ F) as Hk.
+        destruct (fresh now e); cbn [fst snd s_items].
+        * rewrite (others_front _ _ _ Hk), without_idem. reflexivity.
+        * rewrite without_idem. reflexivity.
+      + reflexivity.
+    - destruct (spec_add_purge now s k v ttl) as [purged [H1 H2]]. cbv zeta in H1, H2.
+      destruct (spec_add vmem esz isz tmax now s k v ttl) as [s1 b1]. cbn [fst snd] in *.
+      exists purged. split; [exact H1|]. unfold purge_justified. destruct purged as [|x p]; [exact I|].
+      destruct H2 as [sz [Hb [Hs Hl]]]. exists sz. subst b1. repeat split; assumption.
+    - destruct (spec_add_purge now s k v (s_dttl s)) as [purged [H1 H2]]. cbv zeta in H1, H2.
+      destruct (spec_add vmem esz isz tmax now s k v (s_dttl s)) as [s1 b1]. cbn [fst snd] in *.
+      exists purged. split; [exact H1|]. unfold purge_justified. destruct purged as [|x p]; [exact I|].
+      destruct H2 as [sz [Hb [Hs Hl]]]. exists sz. subst b1. repeat split; assumption.
+    - exists []. cbn [fst snd spec_del s_items]. rewrite without_idem, app_nil_r. split; [reflexivity|exact I].
+    - cbn [fst snd spec_setLimit s_items s_limit].
+      destruct (fit_prefix n (s_items s)) as [r Hr]. exists r. split; [exact Hr|].
+      unfold purge_justified. destruct r as [|x r']; [exact I|]. split; [reflexivity|].
+      exact (fit_maximal _ _ _ _ Hr).
+    - exists []. cbn [fst snd]. rewrite app_nil_r. split; [reflexivity|exact I].
+  Qed.
+
+  Theorem only_lru_purged t0 cap dttl b (ops : list op) (o : op) :
+    cap <= U64MAX -> dttl_ok dttl -> Forall op_ok ops -> op_ok o ->
+    let w := snd (crun (t0, clp_new t0 cap dttl b) ops) in
+    let w' := fst (cstep w o) in
+    let res := snd (cstep w o) in
+    exists purged,
+      others (op_key o) (entries (snd w)) = others (op_key o) (entries (snd w')) ++ purged /\
+      purge_justified vmem esz isz o res (memLimit (snd w'))
+                      (others (op_key o) (entries (snd w'))) purged.
+  Proof.
+    intros Hc Hd Hf Ho. destruct (reachable t0 cap dttl b ops Hc Hd Hf) as [now [s [H G]]].
+    cbv zeta. rewrite H, (step_comm now s o G Ho). cbn [fst snd].
+    exact (spec_purge now s o).
   Qed.
 End Proofs.
